@@ -348,8 +348,65 @@ def echo_scopes(rng, src):
     return text, path
 
 
+def local_twin(rng, src):
+    """src with one of its classes (top-level or nested) defined once more as a LOCAL class of a function that comes
+    EARLIER in the module (a factory, a test helper that builds a class of the same name with the same members): an
+    existing top-level function before the class, or a new one.  A local class is not a location of the module; its
+    members are spelled like the members of the class it repeats.  -> (text, path of the class) or (src, None)"""
+    try:
+        tree = ast.parse(src)
+    except SyntaxError:
+        return src, None
+    cands = [([s.name], s, j) for j, s in enumerate(tree.body) if isinstance(s, ast.ClassDef)] + _nested_classes(tree)
+    if not cands:
+        return src, None
+    path, node, top = rng.choice(cands)
+    twin = copy.deepcopy(node)
+    for s in ast.walk(twin):
+        b = getattr(s, "body", None)
+        if isinstance(s, (ast.ClassDef, ast.FunctionDef)) and b and isinstance(b[0], ast.Expr) \
+                and isinstance(b[0].value, ast.Constant) and isinstance(b[0].value.value, str) and "\n" in b[0].value.value:
+            b[0].value = ast.Constant(value=b[0].value.value.split("\n")[0])
+    funcs = [s for s in tree.body[:top] if is_func(s) and not s.decorator_list]
+    ret = ast.Return(value=ast.Name(id=twin.name, ctx=ast.Load()))
+    if funcs and rng.random() < 0.5:
+        host = rng.choice(funcs)
+        k = 1 if host.body and isinstance(host.body[0], ast.Expr) and isinstance(host.body[0].value, ast.Constant) else 0
+        host.body.insert(k, twin)
+    else:
+        taken = {nm for nm, _ in GM._members(tree)}
+        name = next((n for n in rng.sample(["make", "build", "factory", "fixture", "_local"], 5) if n not in taken), None)
+        if name is None:
+            return src, None
+        args = ast.arguments(posonlyargs=[], args=[], vararg=None, kwonlyargs=[], kw_defaults=[], kwarg=None, defaults=[])
+        host = ast.FunctionDef(name=name, args=args, body=[twin, ret], decorator_list=[], returns=None, type_comment=None)
+        if hasattr(ast, "TypeVar"):
+            host.type_params = []
+        lo = 0
+        while lo < len(tree.body) and (isinstance(tree.body[lo], (ast.Import, ast.ImportFrom)) or (
+                lo == 0 and isinstance(tree.body[0], ast.Expr) and isinstance(tree.body[0].value, ast.Constant))):
+            lo += 1
+        tree.body.insert(rng.randint(min(lo, top), top), host)
+    try:
+        text = ast.unparse(ast.fix_missing_locations(tree)) + "\n"
+        ast.parse(text)
+    except Exception:  # noqa
+        return src, None
+    return text, path
+
+
 def deep_module(rng, max_items=None):
-    """a module three classes deep in which a nested scope repeats an earlier one -> (text, kind)"""
+    """a module three classes deep in which a nested scope repeats an earlier one; one in four also has a class repeated
+    as a local class of an earlier function -> (text, kind)"""
+    text, kind = _deep_module(rng, max_items)
+    if rng.random() < 0.25:
+        text2, path = local_twin(rng, text)
+        if path is not None:
+            return text2, kind + "+local"
+    return text, kind
+
+
+def _deep_module(rng, max_items=None):
     if rng.random() < 0.12:
         return rng.choice(DEEP), "deep-special"
     for _ in range(40):
@@ -360,9 +417,21 @@ def deep_module(rng, max_items=None):
     return rng.choice(DEEP), "deep-special"
 
 
+def local_module(rng, tier="quick"):
+    """an ordinary generated module with one of its classes repeated as a local class of an earlier function"""
+    for _ in range(40):
+        src = GM.gen_module(rng, depth=rng.choice([1, 2, 2, 3]), max_items=rng.choice([4, 6, 8]))
+        text, path = local_twin(rng, src)
+        if path is not None:
+            return text, "local-twin"
+    return rng.choice(SPECIAL), "special"
+
+
 def _module(rng, tier):
     if rng.random() < 0.1:
         return deep_module(rng)
+    if rng.random() < 0.06:
+        return local_module(rng, tier)
     if rng.random() < 0.12:
         return rng.choice(SPECIAL), "special"
     depth = rng.choice([1, 2, 2, 3]) if tier == "quick" else rng.choice([1, 2, 3, 4, 5])
